@@ -485,7 +485,8 @@ func joinInts(xs []int, sep string) string {
 type cutScript struct {
 	batch   []int
 	barrier uint64
-	mode    int // 0 plain read; 1 barrier requested before the cursors move; 2 after
+	mode    int // 0 plain read; 1 barrier requested before the cursors move; 2 after; 3 while the records are emitted
+	k       int // mode 3: the request is made when the k-th record of this read has arrived downstream
 }
 
 type cutSplit struct{ id, init, cur int }
@@ -498,6 +499,7 @@ type cutReader struct {
 	assigned  chan struct{}
 	ckptTaken chan struct{}
 	inject    func(id uint64)
+	arm       func(split, idx int, fire func()) // mode 3: fire when that record is received by an operator
 	stopped   atomic.Bool
 }
 
@@ -537,13 +539,26 @@ func (r *cutReader) ReadEvents() ([][]byte, error) {
 		r.mu.Lock()
 	}
 	var events [][]byte
+	trigSplit, trigIdx := -1, -1
 	for _, id := range sc.batch {
 		if s := r.find(id); s != nil {
 			events = append(events, []byte(fmt.Sprintf("%d:%d", id, s.cur)))
+			if sc.mode == 3 && (len(events) <= sc.k || trigSplit < 0) {
+				trigSplit, trigIdx = id, s.cur // the k-th record of the read (the last one if it is shorter)
+			}
 			s.cur++
 		}
 	}
 	r.mu.Unlock()
+	if sc.mode == 3 {
+		// ... or while the runner is emitting the records of this read
+		if trigSplit < 0 {
+			r.inject(sc.barrier)
+		} else {
+			id := sc.barrier
+			r.arm(trigSplit, trigIdx, func() { r.inject(id) })
+		}
+	}
 	if sc.mode == 2 {
 		// ... or after the cursors moved but before the records are handed to the loop
 		r.inject(sc.barrier)
@@ -610,12 +625,38 @@ type cutEvent struct {
 	split, idx int
 }
 
+// cutTrigger fires once when a given record arrives at any operator.
+type cutTrigger struct {
+	mu         sync.Mutex
+	split, idx int
+	fire       func()
+}
+
+func (t *cutTrigger) arm(split, idx int, fire func()) {
+	t.mu.Lock()
+	t.split, t.idx, t.fire = split, idx, fire
+	t.mu.Unlock()
+}
+
+func (t *cutTrigger) seen(split, idx int) {
+	t.mu.Lock()
+	var f func()
+	if t.fire != nil && t.split == split && t.idx == idx {
+		f, t.fire = t.fire, nil
+	}
+	t.mu.Unlock()
+	if f != nil {
+		f()
+	}
+}
+
 type cutOp struct {
 	proto.UnimplementedOperator
 	id       string
 	mu       sync.Mutex
 	events   []cutEvent
 	barriers chan uint64
+	trig     *cutTrigger
 }
 
 func (o *cutOp) ID() string   { return o.id }
@@ -629,6 +670,9 @@ func (o *cutOp) HandleEventBatch(ctx context.Context, batch []*workerpb.Event) e
 			o.mu.Lock()
 			o.events = append(o.events, cutEvent{split: s, idx: i})
 			o.mu.Unlock()
+			if o.trig != nil {
+				o.trig.seen(s, i)
+			}
 		case *workerpb.Event_CheckpointBarrier:
 			o.mu.Lock()
 			o.events = append(o.events, cutEvent{barrier: t.CheckpointBarrier.CheckpointId})
@@ -659,8 +703,10 @@ func newCutEnv(maxSize, delayMs, nOps int) *cutEnv {
 	e.reader = &cutReader{consumed: make(chan int, 64), assigned: make(chan struct{}, 64), ckptTaken: make(chan struct{}, 1)}
 	e.job = &cutJob{reports: make(chan *jobpb.SourceRunnerCheckpointCompleteRequest, 64)}
 	nodes := make([]*jobpb.NodeIdentity, nOps)
+	trig := &cutTrigger{}
+	e.reader.arm = trig.arm
 	for i := 0; i < nOps; i++ {
-		e.ops = append(e.ops, &cutOp{id: fmt.Sprintf("op%d", i), barriers: make(chan uint64, 256)})
+		e.ops = append(e.ops, &cutOp{id: fmt.Sprintf("op%d", i), barriers: make(chan uint64, 256), trig: trig})
 		nodes[i] = &jobpb.NodeIdentity{Id: e.ops[i].id, Host: "h"}
 	}
 	e.sr = sourcerunner.New(sourcerunner.NewParams{
@@ -748,7 +794,7 @@ func (e *cutEnv) awaitBarrier(id uint64) string {
 		if len(idx) == 0 {
 			del[k] = fmt.Sprintf("%d:-", s)
 		} else {
-			del[k] = fmt.Sprintf("%d:%s", s, joinInts(idx, "."))
+			del[k] = fmt.Sprintf("%d:%s", s, joinRuns(idx))
 		}
 	}
 	return "st " + strings.Join(st, ",") + " | " + strings.Join(del, " ")
@@ -831,13 +877,40 @@ func (e *cutEnv) push(sc cutScript) string {
 	}
 }
 
+// atoiList parses a read batch: split ids in emission order, `a*n` = n records of split a.
 func atoiList(s string) []int {
 	var out []int
 	for _, x := range c16List(s) {
+		if a, cnt, ok := strings.Cut(x, "*"); ok {
+			v, _ := strconv.Atoi(a)
+			k, _ := strconv.Atoi(cnt)
+			for ; k > 0; k-- {
+				out = append(out, v)
+			}
+			continue
+		}
 		n, _ := strconv.Atoi(x)
 		out = append(out, n)
 	}
 	return out
+}
+
+// joinRuns prints a sorted list as maximal runs `a-b` joined by dots.
+func joinRuns(xs []int) string {
+	var parts []string
+	for i := 0; i < len(xs); {
+		j := i
+		for j+1 < len(xs) && xs[j+1] == xs[j]+1 {
+			j++
+		}
+		if i == j {
+			parts = append(parts, strconv.Itoa(xs[i]))
+		} else {
+			parts = append(parts, fmt.Sprintf("%d-%d", xs[i], xs[j]))
+		}
+		i = j + 1
+	}
+	return strings.Join(parts, ".")
 }
 
 func implCut(c lib.Case, maxSize, delayMs, nOps int) []string {
@@ -879,8 +952,13 @@ func implCut(c lib.Case, maxSize, delayMs, nOps int) []string {
 			id, _ := strconv.ParseUint(f[1], 10, 64)
 			e.sr.HandleStartCheckpoint(context.Background(), id)
 			out = append(out, e.awaitBarrier(id))
-		case "readbar1", "readbar2":
+		case "readbar1", "readbar2", "readbar3":
 			id, _ := strconv.ParseUint(f[1], 10, 64)
+			k := 0
+			if f[0] == "readbar3" {
+				k, _ = strconv.Atoi(f[2])
+				f = append(f[:2], f[3:]...)
+			}
 			if !started {
 				e.sr.HandleStartCheckpoint(context.Background(), id)
 				out = append(out, e.awaitBarrier(id))
@@ -889,8 +967,10 @@ func implCut(c lib.Case, maxSize, delayMs, nOps int) []string {
 			mode := 1
 			if f[0] == "readbar2" {
 				mode = 2
+			} else if f[0] == "readbar3" {
+				mode = 3
 			}
-			if s := e.push(cutScript{batch: atoiList(f[2]), barrier: id, mode: mode}); strings.HasPrefix(s, "timeout") {
+			if s := e.push(cutScript{batch: atoiList(f[2]), barrier: id, mode: mode, k: k}); strings.HasPrefix(s, "timeout") {
 				out = append(out, s)
 				continue
 			}
@@ -1828,6 +1908,25 @@ func genCut(r *lib.Rng, tier string) lib.Case {
 		}
 		return joinInts(b, ",")
 	}
+	// a read of 501..2000 records (several slices of any plausible emission chunking), from one or several splits
+	bigBatch := func() string {
+		total := r.Range(501, 2000)
+		var parts []string
+		for total > 0 {
+			n := total
+			if r.Chance(1, 2) {
+				n = r.Range(1, total)
+			}
+			parts = append(parts, fmt.Sprintf("%d*%d", lib.Pick(r, splits), n))
+			total -= n
+		}
+		return strings.Join(parts, ",")
+	}
+	bigLeft := 0
+	if r.Chance(2, 5) {
+		bigLeft = r.Range(1, 2)
+		c.Tags = append(c.Tags, "cut-bigread")
+	}
 	if r.Chance(1, 6) {
 		bar++
 		c.Ops = append(c.Ops, fmt.Sprintf("barrier %d", bar)) // before any split is assigned
@@ -1838,7 +1937,25 @@ func genCut(r *lib.Rng, tier string) lib.Case {
 		n = r.Range(8, 40)
 	}
 	for i := 0; i < n; i++ {
-		switch k := r.Intn(12); {
+		if bigLeft > 0 && r.Chance(1, 4) {
+			// a checkpoint is requested while a large read is under way: before / after the cursors move, or when the
+			// k-th record of the read has arrived downstream (the runner is then still emitting, or just done)
+			bigLeft--
+			bar++
+			switch r.Intn(4) {
+			case 0:
+				c.Ops = append(c.Ops, fmt.Sprintf("readbar1 %d %s", bar, bigBatch()))
+			case 1:
+				c.Ops = append(c.Ops, fmt.Sprintf("readbar2 %d %s", bar, bigBatch()))
+			default:
+				c.Ops = append(c.Ops, fmt.Sprintf("readbar3 %d %d %s", bar, lib.Pick(r, []int{1, 2, 40, 250, 499, 500, 501, 900}), bigBatch()))
+			}
+			continue
+		}
+		switch k := r.Intn(13); {
+		case k == 12:
+			bar++
+			c.Ops = append(c.Ops, fmt.Sprintf("readbar3 %d %d %s", bar, r.Range(0, 4), batch()))
 		case k < 5:
 			c.Ops = append(c.Ops, "read "+batch())
 		case k < 7:
@@ -1942,7 +2059,7 @@ func propC16() *lib.Prop {
 	return &lib.Prop{
 		ID:   "C16",
 		Corr: "Model/Splits.lean ↔ kinesis.SourceSplitter+SplitTracker (against kinesisfake), uniformlyAssignShard, embedded/httpapi splitters, sliceu.Partition, SourceRunner.processEvents (barrier cut with a scripted reader)",
-		Rule: "cases: kin = op sequences (split/merge of the stream, discovery ticks, finish notifications in any order, checkpoint, restore) on the real Kinesis splitter; cut = assign/read/barrier scripts (incl. checkpoint requests arriving inside a read) on the real SourceRunner with a scripted reader; job = real jobs.Job + snapshots.Store + httpapi splitter with a storage location that holds a snapshot write until the replacement operator is being deployed (checkpoint id the operators restore vs position the split resumes from); ecut = the real embedded SourceReader free-running under the real SourceRunner with barriers at random moments (only the statement of cursor_matches_cut is observed); misc = Partition/embedded/httpapi/uniformlyAssignShard blocks. non-trivial = kin case with a restore from a checkpoint after the stream was resharded, cut case with a barrier after a read, or misc block",
+		Rule: "cases: kin = op sequences (split/merge of the stream, discovery ticks, finish notifications in any order, checkpoint, restore) on the real Kinesis splitter; cut = assign/read/barrier scripts (reads of up to 2000 records; checkpoint requests arriving inside a read: before/after the cursors move and while its records are being emitted, triggered by the k-th record arriving downstream) on the real SourceRunner with a scripted reader; job = real jobs.Job + snapshots.Store + httpapi splitter with a storage location that holds a snapshot write until the replacement operator is being deployed (checkpoint id the operators restore vs position the split resumes from); ecut = the real embedded SourceReader free-running under the real SourceRunner with barriers at random moments (only the statement of cursor_matches_cut is observed); misc = Partition/embedded/httpapi/uniformlyAssignShard blocks. non-trivial = kin case with a restore from a checkpoint after the stream was resharded, cut case with a barrier after a read, or misc block",
 		NumCases: func(tier string) int {
 			if tier == "thorough" {
 				return 8000
@@ -1963,6 +2080,11 @@ func propC16() *lib.Prop {
 			// a publication lands between assembly.Deploy and sourceSplitter.Start of the redeploy
 			cs = append(cs, lib.Case{Header: "M C16 job", Tags: []string{"job", "job-race"},
 				Ops: []string{"deploy", "ckpt 10", "ckpt 20 hold", "fail race", "ckpt 33", "fail", "ckpt 40 hold", "fail", "release", "fail"}})
+			// large reads with the checkpoint requested while they are being emitted
+			cs = append(cs, lib.Case{Header: "M C16 cut 1 1 2", Tags: []string{"cut", "cut-bigread"},
+				Ops: []string{"assign 0@0,1@7", "readbar3 1 1 0*1300", "readbar2 2 1*600,0*300,1*400", "readbar3 3 500 0*200,1*901", "read 0*700", "barrier 4", "readbar1 5 1*502", "end"}})
+			cs = append(cs, lib.Case{Header: "M C16 cut 4 2 3", Tags: []string{"cut", "cut-bigread"},
+				Ops: []string{"assign 0@0", "readbar3 1 2 0*1001", "readbar3 2 501 0*1600", "readbar2 3 0*2000", "end"}})
 			cs = append(cs, lib.Case{Header: "M C16 cut 2 2 2", Tags: []string{"cut"},
 				Ops: []string{"barrier 1", "assign 0@0,1@5", "read 0,1,0", "barrier 2", "readbar1 3 1,1,0", "readbar2 4 0,0", "assign 2@0,0@9", "read 2,77,0", "barrier 5", "end"}})
 			grid := lib.Case{Header: "M C16 misc", Tags: []string{"misc", "grid"}}
